@@ -30,7 +30,7 @@ ASSUMPTIONS = [
     "'exactly once per evaluated directive': a directive in the dependency closure is delivered once per read_namespace call",
 ]
 
-CTX = ["E", "C", "F", "F#", "A", "V", "K", "M", "X"]
+CTX = ["E", "C", "F", "F#", "A", "V", "K", "M", "X", "S"]
 
 
 def ctx_line(sym, i, tag):
@@ -49,6 +49,9 @@ def ctx_line(sym, i, tag):
     if sym == "X":
         # characters that str.splitlines() treats as line boundaries but DSDL does not (only LF / CRLF / CR end a line)
         return "# form\x0cfeed vt\x0b fs\x1c gs\x1d rs\x1e nel\x85 ls\u2028 ps\u2029 end"
+    if sym == "S":
+        # ONE physical line whose string literals DENOTE line breaks through escape sequences (and a continued comment look-alike)
+        return "@assert 'a\\nb\\u000a\\r' != \"\\n\\n\"  # not continued \\"
     if sym == "M":
         # ONE statement that continues on the next physical line: the grammar lets a string literal contain a line break
         return "@assert 'two\nlines' != ''"
